@@ -334,7 +334,8 @@ Lemma cstart_ne : forall c t, (cp c =? 45) = false -> cstart c t = false.
 Proof. intros c t H. unfold cstart. rewrite H. reflexivity. Qed.
 Lemma cstart_quote : forall c t, is_quote c = true -> cstart c t = false.
 Proof.
-  intros c t H. apply cstart_ne. unfold is_quote in H. apply orb_prop in H. destruct H as [H|H]; apply N.eqb_eq in H; rewrite H; reflexivity.
+  intros c t H. apply cstart_ne. unfold is_quote in H. apply orb_prop in H. destruct H as [H|H]; [apply orb_prop in H; destruct H as [H|H]|];
+    apply N.eqb_eq in H; rewrite H; reflexivity.
 Qed.
 Lemma cstart_sp : forall c t, is_sp c = true -> cstart c t = false.
 Proof. intros c t H. apply cstart_ne. unfold is_sp in H. apply N.eqb_eq in H. rewrite H. reflexivity. Qed.
@@ -837,6 +838,7 @@ Section L007.
   (* the minus sign is neither a letter nor a digit (a comment start never lies inside a word) *)
   Hypothesis nl45 : is_letter 45 = false.
   Hypothesis nd45 : is_digit 45 = false.
+  Hypothesis up_nobt : forall x u, upper_ascii x = Some u -> u <> 96.
 
   Notation word_start := (word_start is_letter).
   Notation word_char := (word_char is_letter is_digit).
@@ -990,8 +992,9 @@ Section L007.
     is_quote (asc y) = false /\ word_start (asc y) = true /\ wc (asc y) = true.
   Proof.
     intros x y H. destruct (up_noquote _ _ H) as (N1 & N2 & _). pose proof (up_letter _ _ H) as L.
+    pose proof (up_nobt _ _ H) as N3.
     assert (Q : is_quote (asc y) = false).
-    { unfold is_quote, asc. cbn [cp]. apply orb_false_intro; apply N.eqb_neq; assumption. }
+    { unfold is_quote, asc. cbn [cp]. apply N.eqb_neq in N1. apply N.eqb_neq in N2. apply N.eqb_neq in N3. rewrite N1, N2, N3. reflexivity. }
     assert (W : word_start (asc y) = true).
     { unfold Lint.word_start, asc. cbn [cp]. rewrite L. reflexivity. }
     split; [exact Q|]. split; [exact W|]. unfold wc. rewrite Q. unfold Lint.word_char. rewrite W. reflexivity.
@@ -1953,6 +1956,8 @@ Section Pipeline.
   Hypothesis sp32 : is_space 32 = true.
   Hypothesis sp9 : is_space 9 = true.
   Hypothesis sp10 : is_space 10 = true.
+  Hypothesis up_nobt : forall x u, upper_ascii x = Some u -> u <> 96.
+  Hypothesis up_keynobt : forall x u, upper_ascii x = Some u -> x <> 96.
 
   Notation f1 := l001_fix_line.
   Notation f2 := l002_fix_line.
@@ -2188,15 +2193,18 @@ Section Pipeline.
   Proof.
     intros c c' [H|[H|(u & H1 & H2)]]; subst; [split; [apply is_quote_wr|intros _; apply cp_wr]|split; [reflexivity|intros _; reflexivity]|].
     destruct (up_keynoquote _ _ H1) as (A & B). destruct (up_noquote _ _ H1) as (A' & B' & _).
-    assert (Q : is_quote c = false) by (unfold is_quote; apply N.eqb_neq in A; apply N.eqb_neq in B; rewrite A, B; reflexivity).
-    assert (Q' : is_quote (asc u) = false) by (unfold is_quote, asc; cbn [cp]; apply N.eqb_neq in A'; apply N.eqb_neq in B'; rewrite A', B'; reflexivity).
+    pose proof (up_keynobt _ _ H1) as C. pose proof (up_nobt _ _ H1) as C'.
+    apply N.eqb_neq in C. apply N.eqb_neq in C'.
+    assert (Q : is_quote c = false) by (unfold is_quote; apply N.eqb_neq in A; apply N.eqb_neq in B; rewrite A, B, C; reflexivity).
+    assert (Q' : is_quote (asc u) = false) by (unfold is_quote, asc; cbn [cp]; apply N.eqb_neq in A'; apply N.eqb_neq in B'; rewrite A', B', C'; reflexivity).
     split; [rewrite Q, Q'; reflexivity|rewrite Q; discriminate].
   Qed.
-  Lemma rel_eqk : forall c c' k, rel c c' -> (k = 39 \/ k = 34) -> (cp c' =? k) = (cp c =? k).
+  Lemma rel_eqk : forall c c' k, rel c c' -> (k = 39 \/ k = 34 \/ k = 96) -> (cp c' =? k) = (cp c =? k).
   Proof.
     intros c c' k [H|[H|(u & H1 & H2)]] Hk; subst c'; [rewrite cp_wr; reflexivity|reflexivity|].
     destruct (up_keynoquote _ _ H1) as (A & B). destruct (up_noquote _ _ H1) as (A' & B' & _). cbn [asc cp].
-    destruct Hk; subst k; [apply N.eqb_neq in A; apply N.eqb_neq in A'|apply N.eqb_neq in B; apply N.eqb_neq in B']; congruence.
+    pose proof (up_keynobt _ _ H1) as C. pose proof (up_nobt _ _ H1) as C'.
+    destruct Hk as [Hk|[Hk|Hk]]; subst k; [apply N.eqb_neq in A; apply N.eqb_neq in A'|apply N.eqb_neq in B; apply N.eqb_neq in B'|apply N.eqb_neq in C; apply N.eqb_neq in C']; congruence.
   Qed.
   Lemma rel_wsc : forall c c', is_nl c = false -> rel c c' -> wsc c' = wsc c.
   Proof.
@@ -2270,10 +2278,10 @@ Section Pipeline.
     - cbn [length]. specialize (IH None false). lia.
   Qed.
 
-  Definition qok (q : option N) : Prop := match q with Some k => k = 39 \/ k = 34 | None => True end.
+  Definition qok (q : option N) : Prop := match q with Some k => k = 39 \/ k = 34 \/ k = 96 | None => True end.
 
-  Lemma is_quote_k : forall c, is_quote c = true -> cp c = 39 \/ cp c = 34.
-  Proof. intros c H. unfold is_quote in H. apply orb_prop in H. destruct H as [H|H]; apply N.eqb_eq in H; auto. Qed.
+  Lemma is_quote_k : forall c, is_quote c = true -> cp c = 39 \/ cp c = 34 \/ cp c = 96.
+  Proof. intros c H. unfold is_quote in H. apply orb_prop in H. destruct H as [H|H]; [apply orb_prop in H; destruct H as [H|H]|]; apply N.eqb_eq in H; auto. Qed.
 
   Lemma scan10_rel : forall l l', Forall2 rel l l' -> forall q ps, qok q -> l010_scan q ps l = l -> l010_scan q ps l' = l'.
   Proof.
@@ -2381,7 +2389,7 @@ Section Pipeline.
       apply f7_keeps_S10. rewrite Forall_forall in C10. apply C10. exact Hl1. }
     assert (D7 : Forall (fun l => f7 l = l) (split_nl u)).
     { rewrite L5. apply Forall_forall. intros l Hl. apply in_map_iff in Hl. destruct Hl as (l1 & E1 & _). subst.
-      apply (l007_line_idem is_letter is_digit upper_ascii keywords up_letter up_noquote up_idem nl45 nd45). }
+      apply (l007_line_idem is_letter is_digit upper_ascii keywords up_letter up_noquote up_idem nl45 nd45 up_nobt). }
     (* the output is a fixed point of every stage *)
     assert (E1 : F1 u = u) by (apply (per_line_fixed f1 u D1)).
     rewrite E1.
@@ -2404,6 +2412,7 @@ Section L007Clears.
   Hypothesis up_idem : forall x u, upper_ascii x = Some u -> upper_ascii u = Some u.
   Hypothesis nl45 : is_letter 45 = false.
   Hypothesis nd45 : is_digit 45 = false.
+  Hypothesis up_nobt : forall x u, upper_ascii x = Some u -> u <> 96.
 
   Notation word_start := (word_start is_letter).
   Notation word_char := (word_char is_letter is_digit).
@@ -2509,7 +2518,7 @@ Section L007Clears.
         * destruct (word_start c) eqn:Ew.
           -- rewrite (sN_word is_letter is_digit upper_ascii keywords nl45 nd45) by assumption.
              pose proof (take_l_all wc t) as Hv.
-             destruct (conv_shape is_letter is_digit upper_ascii keywords up_letter up_noquote c (take_l wc t) Eq Ew Hv) as (c' & v' & Ec & Q' & W' & V').
+             destruct (conv_shape is_letter is_digit upper_ascii keywords up_letter up_noquote up_nobt c (take_l wc t) Eq Ew Hv) as (c' & v' & Ec & Q' & W' & V').
              rewrite Ec. change ((c' :: v') ++ sN (trim_l wc t)) with (c' :: v' ++ sN (trim_l wc t)).
              destruct (wN_word_app i c' v' (sN (trim_l wc t)) Q' W' V') as (i' & E);
                [apply (sN_stops is_letter is_digit upper_ascii keywords); apply trim_l_stops|].
@@ -2520,7 +2529,7 @@ Section L007Clears.
                 destruct (IH _ Hr) as [IHr _]. apply IHr.
           -- rewrite (sN_other is_letter is_digit upper_ascii keywords) by assumption.
              assert (Ecw : cstart (wr c) (sN t) = false).
-             { rewrite cstart_wr. rewrite (cstart_next c (sN t) t (next_is_sN is_letter is_digit upper_ascii keywords up_letter up_noquote nl45 nd45 t)). exact Ecs. }
+             { rewrite cstart_wr. rewrite (cstart_next c (sN t) t (next_is_sN is_letter is_digit upper_ascii keywords up_letter up_noquote nl45 nd45 up_nobt t)). exact Ecs. }
              rewrite wN_other by (rewrite ?is_quote_wr, ?(word_start_wr is_letter); assumption). apply IHn.
       + intros k i. rewrite (sQ_cons is_letter is_digit upper_ascii keywords). rewrite wQ_cons. rewrite cp_wr.
         destruct (cp c =? k); [apply IHn|apply IHq].
